@@ -555,7 +555,7 @@ theorem tar_obs_agree {t : Node} (mt : List Name → Int) (ht : t.wf = true) (hd
       rw [get_append, hg] at hgb
       cases hgb
     have hisdir : (readTar (tarMembers mt t)).isdir (mkp false cs) = .ok false := by
-      simp only [TarFS.isdir, hrel2, readTar]; rw [hod]; simp only; rw [hany]
+      simp only [TarFS.isdir, hrel2, readTar, hnil, Bool.false_eq_true, if_false]; rw [hod]; simp only; rw [hany]
     have hdet : (readTar (tarMembers mt t)).details p = .err .ResourceNotFound := by
       simp only [TarFS.details, hrel, hnil, Bool.false_eq_true, if_false]
       have h1 : odGet (mkp false cs) (readTar (tarMembers mt t)).entries = none := hod
@@ -563,7 +563,7 @@ theorem tar_obs_agree {t : Node} (mt : List Name → Int) (ht : t.wf = true) (hd
     have h1 : odGet (mkp false cs) (readTar (tarMembers mt t)).entries = none := hod
     have h2 : (readTar (tarMembers mt t)).entries.any (fun e => isbase (mkp false cs) e.1) = false := hany
     simp only [TarFS.obs, TarFS.exists_, TarFS.isdir, TarFS.isfile, TarFS.listdir, TarFS.openRead, hrel, hdet,
-      h1, h2]
+      h1, h2, hnil, Bool.false_eq_true, if_false]
     simp
   | some n =>
     have hod := odGet_tarMembers_some ht hd mt hc hg
@@ -575,7 +575,8 @@ theorem tar_obs_agree {t : Node} (mt : List Name → Int) (ht : t.wf = true) (hd
       have hdet : (readTar (tarMembers mt t)).details p =
           .ok ⟨Ref.lastName cs, false, some b.length, some (tarTime (mt cs))⟩ := by
         simp only [TarFS.details, hrel, hnil, Bool.false_eq_true, if_false, h1, basename_mkp hcl hc]
-      simp only [TarFS.obs, TarFS.exists_, TarFS.isdir, TarFS.isfile, TarFS.listdir, TarFS.openRead, hrel, hdet, h1]
+      simp only [TarFS.obs, TarFS.exists_, TarFS.isdir, TarFS.isfile, TarFS.listdir, TarFS.openRead, hrel, hdet, h1,
+        hnil, Bool.false_eq_true, if_false]
       simp
     | dir es =>
       simp only [Node.isDir, fileBytes] at h1
@@ -584,7 +585,8 @@ theorem tar_obs_agree {t : Node} (mt : List Name → Int) (ht : t.wf = true) (hd
           .ok ⟨Ref.lastName cs, true, some 0, some (tarTime (mt cs))⟩ := by
         simp only [TarFS.details, hrel, hnil, Bool.false_eq_true, if_false, h1, basename_mkp hcl hc,
           List.length_nil]
-      simp only [TarFS.obs, TarFS.exists_, TarFS.isdir, TarFS.isfile, TarFS.listdir, TarFS.openRead, hrel, hdet, h1]
+      simp only [TarFS.obs, TarFS.exists_, TarFS.isdir, TarFS.isfile, TarFS.listdir, TarFS.openRead, hrel, hdet, h1,
+        hnil, Bool.false_eq_true, if_false]
       refine ⟨?_, ?_, ?_, ⟨l, ?_, hl2⟩, ?_, ?_⟩
       · trivial
       · simp
@@ -593,9 +595,9 @@ theorem tar_obs_agree {t : Node} (mt : List Name → Int) (ht : t.wf = true) (hd
       · simp
       · simp [hc]
 
-/-- … and at its root, provided the archive has at least one member -/
+/-- … and at its root, for every tree (the empty one included) -/
 theorem tar_obs_root {t : Node} (mt : List Name → Int) (ht : t.wf = true) (hd : t.isDir = true)
-    {p : Str} (hv : Ref.validate p = .ok []) (hne : t.entries ≠ []) :
+    {p : Str} (hv : Ref.validate p = .ok []) :
     let o := (readTar (tarMembers mt t)).obs p
     o.exists_ = .ok true ∧ o.isdir = .ok true ∧ o.isfile = .ok false ∧
     (∃ l, o.listdir = .ok l ∧ l.Perm (Ents.names t.entries)) ∧
@@ -609,19 +611,11 @@ theorem tar_obs_root {t : Node} (mt : List Name → Int) (ht : t.wf = true) (hd 
     obtain ⟨l, hl1, hl2⟩ := tar_childNames_perm mt ht hd hcl hg
     have hod : odGet (mkp false []) (readTar (tarMembers mt (.dir es))).entries = none :=
       odGet_tarMembers_none ht hd mt hcl (Or.inl rfl)
-    have hany : (readTar (tarMembers mt (.dir es))).entries.any (fun e => isbase (mkp false []) e.1) = true := by
-      show (tarEntries (tarMembers mt (.dir es))).any (fun e => isbase (mkp false []) e.1) = true
-      rw [any_isbase_tarMembers ht hd mt hcl]
-      cases es with
-      | nil => simp [Node.entries] at hne
-      | cons e es' =>
-        obtain ⟨k, v⟩ := e
-        exact ⟨[k], v, by simp, by simp [get_cons_dir, Ents.lookup, get_nil], List.nil_prefix⟩
     have hnil : (mkp false ([] : List Name) == []) = true := rfl
     have hdet : (readTar (tarMembers mt (.dir es))).details p = .ok ⟨[], true, none, none⟩ := by
       simp only [TarFS.details, hrel, hnil, if_true]
     simp only [TarFS.obs, TarFS.exists_, TarFS.isdir, TarFS.isfile, TarFS.listdir, TarFS.openRead, hrel, hdet,
-      hod, hany, Node.entries]
+      hod, hnil, if_true, Node.entries]
     refine ⟨?_, ?_, ?_, ⟨l, ?_, hl2⟩, ?_, ?_⟩
     · trivial
     · trivial
@@ -629,5 +623,108 @@ theorem tar_obs_root {t : Node} (mt : List Name → Int) (ht : t.wf = true) (hd 
     · simpa using hl1
     · trivial
     · trivial
+
+/-! ### any member list: names and stat of listed paths -/
+
+theorem lastName_snoc (cs : List Name) (x : Name) : Ref.lastName (cs ++ [x]) = x := by
+  simp [Ref.lastName]
+
+theorem rel_mkp' (a : Bool) {cs : List Name} (h : Clean cs) : TarFS.rel (mkp a cs) = .ok (mkp false cs) := by
+  simp only [TarFS.rel, normpath_mkp h, abspath_mkp h, relpath_mkp h]
+
+/-- `Info.name` is the last component of the path that was asked for -/
+theorem tar_details_name (z : TarFS) (p : Str) (d : Details) (h : z.details p = .ok d) :
+    ∃ cs, Clean cs ∧ TarFS.rel p = .ok (mkp false cs) ∧ d.name = Ref.lastName cs := by
+  simp only [TarFS.details] at h
+  cases hr : TarFS.rel p with
+  | err e => rw [hr] at h; cases h
+  | ok r =>
+    rw [hr] at h
+    simp only [TarFS.rel] at hr
+    cases hn : normpath p with
+    | err e => rw [hn] at hr; cases hr
+    | ok n =>
+      rw [hn] at hr
+      obtain ⟨cs, hcs, rfl⟩ := normpath_ok_clean p n hn
+      simp only [abspath_mkp hcs, relpath_mkp hcs, Res.ok.injEq] at hr
+      subst hr
+      refine ⟨cs, hcs, rfl, ?_⟩
+      simp only at h
+      by_cases hc : cs = []
+      · subst hc
+        have : (mkp false ([] : List Name) == []) = true := rfl
+        simp only [this, if_true, Res.ok.injEq] at h
+        subst h; rfl
+      · have hnil : (mkp false cs == []) = false := by
+          have : mkp false cs ≠ [] := mkp_ne_nil hcs hc
+          simp [this]
+        simp only [hnil, Bool.false_eq_true, if_false] at h
+        cases hod : odGet (mkp false cs) z.entries with
+        | some m =>
+          rw [hod] at h
+          simp only [Res.ok.injEq] at h
+          subst h
+          exact basename_mkp hcs hc
+        | none =>
+          rw [hod] at h
+          simp only at h
+          cases hi : z.isdir (mkp false cs) with
+          | err e => rw [hi] at h; cases h
+          | ok b =>
+            rw [hi] at h
+            cases b with
+            | false => cases h
+            | true =>
+              simp only [Res.ok.injEq] at h
+              subst h
+              exact basename_mkp hcs hc
+
+/-- every name `listdir` returns can be stat'ed, is described under that very name, and — when it is
+a file — can be opened -/
+theorem tar_listed_stat {z : TarFS} (hz : Keyed z.entries) {cs : List Name} (hcs : Clean cs)
+    {l : List Name} (hl : z.listdir (mkp true cs) = .ok l) {x : Name} (hx : x ∈ l) :
+    ∃ d, z.details (mkp true (cs ++ [x])) = .ok d ∧ d.name = x ∧
+      (d.isDir = false → ∃ b, z.openRead (mkp true (cs ++ [x])) = .ok b) := by
+  -- the listing comes from `childNames`
+  simp only [TarFS.listdir, rel_mkp' true hcs] at hl
+  cases hd : z.details (mkp true cs) with
+  | err e => rw [hd] at hl; cases hl
+  | ok d0 =>
+    rw [hd] at hl
+    simp only at hl
+    split at hl
+    · cases hl
+    · obtain ⟨l', h1, _, h3⟩ := childNames_spec hz hcs
+      rw [h1] at hl
+      cases hl
+      obtain ⟨e, he, rest, hclr, hk⟩ := (h3 x).1 hx
+      have hcx : Clean (cs ++ [x]) := by
+        have := clean_append.1 hclr
+        exact clean_append.2 ⟨this.1, clean_cons.2 ⟨(clean_cons.1 this.2).1, clean_nil⟩⟩
+      have hne : cs ++ [x] ≠ [] := by simp
+      have hnil : (mkp false (cs ++ [x]) == []) = false := by
+        have : mkp false (cs ++ [x]) ≠ [] := mkp_ne_nil hcx hne
+        simp [this]
+      have hrel := rel_mkp' true hcx
+      simp only [TarFS.details, TarFS.openRead, hrel, hnil, Bool.false_eq_true, if_false,
+        basename_mkp hcx hne, lastName_snoc]
+      cases hod : odGet (mkp false (cs ++ [x])) z.entries with
+      | some m =>
+        simp only
+        refine ⟨_, rfl, rfl, ?_⟩
+        intro hm
+        simp only at hm
+        simp [hm]
+      | none =>
+        have hany : z.entries.any (fun e => isbase (mkp false (cs ++ [x])) e.1) = true := by
+          rw [List.any_eq_true]
+          refine ⟨e, he, ?_⟩
+          rw [hk]
+          apply (isbase_mkp_iff false false _ _ hcx hclr).2
+          exact ⟨rest, by simp⟩
+        have hisdir : z.isdir (mkp false (cs ++ [x])) = .ok true := by
+          simp only [TarFS.isdir, rel_mkp' false hcx, hnil, Bool.false_eq_true, if_false, hod, hany]
+        simp only [hisdir]
+        exact ⟨_, rfl, rfl, fun h => by simp at h⟩
 
 end Fs.TarLemmas
